@@ -65,7 +65,7 @@ theorem exC_matches : Matches exCP [['a'], ['c'], ['e'], ['e']] :=
         seqOnce_nil.2 rfl, rfl⟩, rfl⟩), rfl⟩
 
 /-- the fields of the running example: `a` required, `b c d` optional, `e` a list -/
-theorem exC_occurs : occurs (dtdSites exC) = some [
+theorem exC_occurs : occurs (dtdSites exC) = [
     { name := ['a'], index := 0, min := 1, max := 1, path := [⟨.s, 1, 1, 1⟩],
       choice := none, sequence := some 1 },
     { name := ['b'], index := 1, min := 0, max := 1,
@@ -86,13 +86,12 @@ arithmetic. -/
 theorem dtd_sites_are_xsd_sites (c : DtdContent) : dtdSites c = sites c.toParticleV :=
   dtdSites_eq_sites c
 
-/-- **No AssertionError, one field per node, document order**: with pairwise distinct field
-names the FLATTEN handlers succeed and keep one field per element / `#PCDATA` node. -/
+/-- **One field per node, document order**: with pairwise distinct field names the FLATTEN handlers
+keep one field per element / `#PCDATA` node. -/
 theorem dtd_occurs_distinct (c : DtdContent) (hd : dtdDistinct c = true) :
-    ∃ ss, occurs (dtdSites c) = some ss ∧ ss.map (·.name) = dtdNames c := by
+    (occurs (dtdSites c)).map (·.name) = dtdNames c := by
   have hd' : (dtdNames c).Nodup := of_decide_eq_true hd
-  refine ⟨_, occurs_dtdSites c hd', ?_⟩
-  rw [← calculatePaths_eq_map, calculatePaths_names, dtdSites_names]
+  rw [occurs_dtdSites c hd', ← calculatePaths_eq_map, calculatePaths_names, dtdSites_names]
 
 example : dtdDistinct exC = true := by decide
 
@@ -101,48 +100,48 @@ node (see `noPcdata`; the lone `#PCDATA` content is `dtd_pcdata_only`), no restr
 the occurrence indicators sit. -/
 theorem dtd_nonlist_sound (c : DtdContent) (hn : noPcdata c = true) (hd : dtdDistinct c = true)
     (p : Particle) (hp : c.toParticle = some p) (w : List Str) (hw : Matches p w)
-    (ss : List Site) (h : occurs (dtdSites c) = some ss) (s : Site) (hs : s ∈ ss)
+    (s : Site) (hs : s ∈ occurs (dtdSites c))
     (hl : s.isList = false) : w.count s.name ≤ 1 :=
-  dtd_nonlist_sound_core c hn (of_decide_eq_true hd) p hp w hw ss h s hs hl
+  dtd_nonlist_sound_core c hn (of_decide_eq_true hd) p hp w hw s hs hl
 
 /-- the hypotheses are satisfiable: field `c` of the running example, word `[a, c, e, e]` -/
 example : List.count ['c'] [['a'], ['c'], ['e'], ['e']] ≤ 1 :=
-  dtd_nonlist_sound exC (by decide) (by decide) _ exC_toParticle _ exC_matches _ exC_occurs
+  dtd_nonlist_sound exC (by decide) (by decide) _ exC_toParticle _ exC_matches
     { name := ['c'], index := 2, min := 0, max := 1,
       path := [⟨.s, 1, 1, 1⟩, ⟨.s, 2, 1, 1⟩, ⟨.c, 3, 0, 1⟩, ⟨.c, 4, 1, 1⟩],
-      choice := some 3, sequence := some 1 } (by decide) (by decide)
+      choice := some 3, sequence := some 1 } (by rw [exC_occurs]; decide) (by decide)
 
 /-- **A required non-list field always finds its element exactly once.** -/
 theorem dtd_required_sound (c : DtdContent) (hn : noPcdata c = true) (hd : dtdDistinct c = true)
     (p : Particle) (hp : c.toParticle = some p) (w : List Str) (hw : Matches p w)
-    (ss : List Site) (h : occurs (dtdSites c) = some ss) (s : Site) (hs : s ∈ ss)
+    (s : Site) (hs : s ∈ occurs (dtdSites c))
     (hr1 : s.min ≥ 1) (hl : s.isList = false) : w.count s.name = 1 :=
-  dtd_required_sound_core c hn (of_decide_eq_true hd) p hp w hw ss h s hs hr1 hl
+  dtd_required_sound_core c hn (of_decide_eq_true hd) p hp w hw s hs hr1 hl
 
 /-- the hypotheses are satisfiable: field `a` of the running example -/
 example : List.count ['a'] [['a'], ['c'], ['e'], ['e']] = 1 :=
-  dtd_required_sound exC (by decide) (by decide) _ exC_toParticle _ exC_matches _ exC_occurs
+  dtd_required_sound exC (by decide) (by decide) _ exC_toParticle _ exC_matches
     { name := ['a'], index := 0, min := 1, max := 1, path := [⟨.s, 1, 1, 1⟩],
-      choice := none, sequence := some 1 } (by decide) (by decide) (by decide)
+      choice := none, sequence := some 1 } (by rw [exC_occurs]; decide) (by decide) (by decide)
 
 /-- **Converse sanity — list fields are needed** (every `or` node has an alternative). -/
 theorem dtd_list_needed (c : DtdContent) (hn : noPcdata c = true) (hd : dtdDistinct c = true)
     (hlive : dtdLive c = true) (p : Particle) (hp : c.toParticle = some p)
-    (ss : List Site) (h : occurs (dtdSites c) = some ss) (s : Site) (hs : s ∈ ss)
+    (s : Site) (hs : s ∈ occurs (dtdSites c))
     (hl : s.isList = true) : ∃ w, Matches p w ∧ 2 ≤ w.count s.name :=
-  dtd_list_needed_core c hn (of_decide_eq_true hd) hlive p hp ss h s hs hl
+  dtd_list_needed_core c hn (of_decide_eq_true hd) hlive p hp s hs hl
 
 /-- the hypotheses are satisfiable: field `e` of the running example -/
 example : ∃ w, Matches exCP w ∧ 2 ≤ w.count ['e'] :=
-  dtd_list_needed exC (by decide) (by decide) (by decide) _ exC_toParticle _ exC_occurs
+  dtd_list_needed exC (by decide) (by decide) (by decide) _ exC_toParticle
     { name := ['e'], index := 4, min := 0, max := maxsize,
       path := [⟨.s, 1, 1, 1⟩, ⟨.s, 2, 1, 1⟩], choice := none, sequence := some 1 }
-    (by decide) (by decide)
+    (by rw [exC_occurs]; decide) (by decide)
 
 /-- the lone `#PCDATA` content (`<!ELEMENT x (#PCDATA)>`): one text field `value` with the bounds
 of the node's own indicator -/
 theorem dtd_pcdata_only (o : Occur) : occurs (dtdSites (.pcdata o)) =
-    some [{ name := "value".toList, index := 0, min := (buildOccurs o).1, max := (buildOccurs o).2 }] := by
+    [{ name := "value".toList, index := 0, min := (buildOccurs o).1, max := (buildOccurs o).2 }] := by
   cases o <;> decide
 
 /-! ## 2. the former counterexamples (repaired) -/
@@ -163,7 +162,7 @@ theorem starSeqC_matches :
 /-- **Repaired** (`C16-sequence-occurrence-dropped`): the indicator of a sequence node reaches
 its members: `<!ELEMENT r ((a, b)*)>` gives two optional list fields (before: two required
 single-valued fields, and `<r><a/><b/><a/><b/></r>` was rejected). -/
-theorem starSeqC_occurs : occurs (dtdSites starSeqC) = some [
+theorem starSeqC_occurs : occurs (dtdSites starSeqC) = [
     { name := ['a'], index := 0, min := 0, max := maxsize, path := [⟨.s, 1, 0, maxsize⟩],
       choice := none, sequence := some 1 },
     { name := ['b'], index := 1, min := 0, max := maxsize, path := [⟨.s, 1, 0, maxsize⟩],
@@ -176,7 +175,7 @@ def plusAltC : DtdContent := .or .once (some (.element ['a'] .once)) (some (.ele
 /-- **Repaired** (`C16-choice-overrides-child-occurrence`): an alternative keeps its own
 indicator: `<!ELEMENT r (a | b+)>` gives an optional field `a` and a list field `b` (before: `b`
 single-valued, and `<r><b/><b/></r>` was rejected). -/
-theorem plusAltC_occurs : occurs (dtdSites plusAltC) = some [
+theorem plusAltC_occurs : occurs (dtdSites plusAltC) = [
     { name := ['a'], index := 0, min := 0, max := 1, path := [⟨.c, 1, 1, 1⟩],
       choice := some 1, sequence := none },
     { name := ['b'], index := 1, min := 0, max := maxsize, path := [⟨.c, 1, 1, 1⟩],
@@ -188,7 +187,7 @@ def optSeqC : DtdContent := .seq .opt (some (.element ['a'] .once)) (some (.elem
 
 /-- **Repaired**: `<!ELEMENT r ((a, b)?)>` gives two optional fields (before: two required
 fields, and `<r/>` was rejected). -/
-theorem optSeqC_occurs : occurs (dtdSites optSeqC) = some [
+theorem optSeqC_occurs : occurs (dtdSites optSeqC) = [
     { name := ['a'], index := 0, min := 0, max := 1, path := [⟨.s, 1, 0, 1⟩],
       choice := none, sequence := some 1 },
     { name := ['b'], index := 1, min := 0, max := 1, path := [⟨.s, 1, 0, 1⟩],
@@ -199,9 +198,9 @@ theorem optSeqC_occurs : occurs (dtdSites optSeqC) = some [
 
 /-- `dtd_nonlist_sound` without the restriction to distinct names -/
 def DtdNonlistSound : Prop :=
-  ∀ (c : DtdContent) (p : Particle) (w : List Str) (ss : List Site) (s : Site),
+  ∀ (c : DtdContent) (p : Particle) (w : List Str) (s : Site),
     noPcdata c = true → c.toParticle = some p → Matches p w →
-    occurs (dtdSites c) = some ss → s ∈ ss → s.isList = false → w.count s.name ≤ 1
+    s ∈ occurs (dtdSites c) → s.isList = false → w.count s.name ≤ 1
 
 /-- `((a | b), (a | c))` -/
 def dupC : DtdContent :=
@@ -228,7 +227,7 @@ theorem dupC_matches :
           exact choiceOnce_cons.2 (Or.inl ha)), rfl⟩,
         seqOnce_nil.2 rfl, rfl⟩, rfl⟩), rfl⟩
 
-theorem dupC_occurs : occurs (dtdSites dupC) = some [
+theorem dupC_occurs : occurs (dtdSites dupC) = [
     { name := ['a'], index := 0, min := 0, max := 1, path := [⟨.s, 1, 1, 1⟩, ⟨.c, 2, 1, 1⟩],
       choice := some 2, sequence := some 1 },
     { name := ['b'], index := 1, min := 0, max := 1, path := [⟨.s, 1, 1, 1⟩, ⟨.c, 2, 1, 1⟩],
@@ -242,10 +241,10 @@ for `<!ELEMENT r ((a|b),(a|c))>` `MergeAttributes` treats the two nodes of `a` a
 exclusive and keeps `max_occurs = 1`, but `<r><a/><a/></r>` is valid. -/
 theorem dtd_duplicate_sites : ¬ DtdNonlistSound := by
   intro h
-  have := h dupC _ [['a'], ['a']] _
+  have := h dupC _ [['a'], ['a']]
     { name := ['a'], index := 0, min := 0, max := 1, path := [⟨.s, 1, 1, 1⟩, ⟨.c, 2, 1, 1⟩],
       choice := some 2, sequence := some 1 }
-    (by decide) rfl dupC_matches dupC_occurs (by decide) (by decide)
+    (by decide) rfl dupC_matches (by rw [dupC_occurs]; decide) (by decide)
   exact absurd this (by decide)
 
 end Props.C16
